@@ -165,6 +165,23 @@ def _ops_near(m):
                 yield ("rep", a, a, s, mode)
 
 
+MANY = (5, 6, 7, 9, 10, 11, 12, 16, 17)
+
+
+def _ops_many(m):
+    names = [nm for nm, _ in m[0]]
+    n = len(names)
+    for idx in [None] + list(range(-n - 2, n + 3)):
+        yield ("add", "new", 0, idx, "silence")
+    yield ("add", names[n // 2], 0, 1, "silence")  # duplicate name
+    for nm in names + ["absent"]:
+        yield ("rm", nm)
+        yield ("ren", nm, "renamed")
+        yield ("ren", nm, names[0])
+        yield ("rep", nm, nm, 2, "silence")
+        yield ("rep", nm, "replaced", 3, "silence")
+
+
 def _apply(tg, op, pool=None):
     """pool: list collecting (tier object, its canonical form) for every tier object handed to the textgrid"""
     k = op[0]
@@ -407,6 +424,10 @@ def parts(tier):
                      "0.1+0.2 (one ulp), starts 0.1 vs 0.1+0.2-0.2, and spans at 2**40 that differ by 7.8 ms: the textgrid span still widens to cover "
                      "the wider tier, and the widening is reported as the mode says", bounds={"slots": len(NEAR), "max_tiers": 2, "depth": "fixed point"},
                 max_depth=None, snippet=_snippet, state_cap=200000),
+        BfsPart("textgrid-mutators-many-tiers", lambda: [(tuple(("t%d" % i, (0, 1, 3)[i % 3]) for i in range(k)), 0.0, 2.0) for k in MANY], _ops_many, _step,
+                rule="one mutator call on textgrids that already hold %s tiers: addTier at every index from -(n+2) to n+2 (and None), removeTier, "
+                     "renameTier and replaceTier of every tier, name clashes and absent names: names, order and mapping follow the ordered-list model"
+                     % (list(MANY),), bounds={"tiers": list(MANY), "depth": 1}, max_depth=1, snippet=_snippet),
         InputPart("live-sequences", lambda: ((m0, op1, 5) for m0 in (((), None, None), ((("a", 0),), 0.0, 2.0), ((("b", 1), ("a", 2)), 0.0, 3.0),
                                                                      ((("a", 0), ("b", 3), ("d", 4)), 0.0, 2.0))
                                              for op1 in _ops(4, 5)(m0)), _check_live,
